@@ -19,6 +19,15 @@ OBLIGATIONS = [
     "KafVerif.C37.regexp_fold_views_differ_rev",
     "KafVerif.C37.lowerGo_ascii",
     "KafVerif.C37.cache_hit_exact_text",
+    "KafVerif.C37.class_pattern_is_glob",
+    "KafVerif.C37.bad_pattern_matches_only_itself",
+    "KafVerif.C37.literal_fast_path_differs",
+    "KafVerif.C37.pathMatch_plain",
+    "KafVerif.C37.plain_patterns_globMatch",
+    "KafVerif.C37.blank_allow_fails_closed",
+    "KafVerif.C37.nonempty_deny_forbids_listing",
+    "KafVerif.C37.blank_allow_forwards_nothing",
+    "KafVerif.C37.dropping_blanks_opens_acl",
     "KafVerif.C37.truncation_bypass_old",
     "KafVerif.C37.catalog_bypass_old",
     "KafVerif.C37.set_catalog_bypass_old",
@@ -47,7 +56,7 @@ LEVEL_TEXT = ("proof: forward_sound — for every parser, ACL, cache configurati
               "resolver reads, EXPLAIN plan rows, DESCRIBE schema rows, topic listing), and every forwarded text is checked "
               "against the ACL on those observations.")
 LEVEL_NOTE = ("kafsql.Parse is one shared parameter of proxy and upstream in the theorem; the driver instantiates it with the "
-              "C35 parser model. path.Match is modelled for literal bytes, `*` and `?` (one UTF-8 rune, as path.Match decodes it). The upstream's dispatch (entry, catalog before "
+              "C35 parser model. path.Match is ported loop by loop (chunks, `*`, `?` = one UTF-8 rune, `[`-classes with ranges / negation / escapes, ErrBadPattern) and was diffed against the real path.Match on 6000 random pattern/name pairs; The upstream's dispatch (entry, catalog before "
               "SET before Parse) is modelled from server.handleQuery and validated against the recording upstream on every "
               "forwarded text of the modelled domain (well-formed UTF-8, no non-ASCII white space, known non-ASCII runes); the "
               "exact direction of that comparison is applied to SHOW PARTITIONS, DESCRIBE, EXPLAIN, SHOW TOPICS, the four "
@@ -63,7 +72,9 @@ DEFAULT_SEED = 37
 TOPICS = ["orders", "payments", "secret", "orders-secret", "shipments-eu", "shipments-us", "audit", "t", "a", "b1",
           # topics that differ only in the case of a non-ASCII letter / a rune Unicode folds onto ASCII: the parser (and
           # the upstream) lower ASCII only, so these are DIFFERENT topics, while strings.ToLower identifies them
-          "café", "cafÉ", "größe", "grÖße", "kelvin", "\u212aelvin", "ωmega", "Ωmega"]
+          "café", "cafÉ", "größe", "grÖße", "kelvin", "\u212aelvin", "ωmega", "Ωmega",
+          # names that differ in one character a `[`-class of an ACL pattern ranges over
+          "audit-7", "audit-3", "audit-x"]
 NONASCII_PAIRS = [("café", "cafÉ"), ("größe", "grÖße"), ("kelvin", "\u212aelvin"), ("ωmega", "Ωmega")]
 ACLS = [
     ([], []),
@@ -85,6 +96,35 @@ ACLS = [
     # SHOW TOPICS / catalog listings allowed ("?" matches "*"), almost no topic allowed
     (["?", "b?"], []),
 ]
+# patterns that are globs WITHOUT `*` / `?`: character classes (ranges, negation, escapes inside), backslash escapes, and
+# malformed patterns (path.Match answers ErrBadPattern: such an entry matches no topic but the one spelled like the pattern)
+CLASS_ACLS = [
+    ([], ["audit-[0-9]"]),
+    (["audit-*"], ["audit-[0-9]"]),
+    (["audit-[^0-9]", "orders"], []),
+    ([], ["audit-\\7", "\\s\\e\\c\\r\\e\\t"]),
+    (["[a-p]*"], ["[o]rders-secret", "audit-[37]"]),
+    (["[orders", "t"], []),
+    ([], ["audit-[", "secret", "orders\\"]),
+    (["[a-c][0-9]", "[t]", "a", "audit-[x-x]"], []),
+    (["[*]", "orders", "caf[à-ï]"], []),
+    (["\\*", "audit-[\\0-\\9]"], []),
+    (["*"], ["[^a-z]*", "*[!-9]", "audit-[]x]"]),
+    ([], ["[k\u212a]elvin", "audit-[^x]", "[]"]),
+    (["audit-[0-9", "audit-[3-]", "audit-[-7]", "orders"], ["audit-[^]"]),
+]
+# lists that are configured but hold only blank entries: a blank pattern matches nothing, a non-empty allow list restricts,
+# a non-empty deny list forbids SHOW TOPICS (acl.go as written)
+BLANK_ACLS = [
+    ([""], []),
+    (["", "  "], []),
+    (["\t"], ["secret"]),
+    (["*"], [" "]),
+    ([], [""]),
+    (["orders"], ["", "\n"]),
+    ([" "], [" "]),
+]
+ACLS += CLASS_ACLS + BLANK_ACLS
 
 # runes that Go's case functions map onto ASCII letters: strings.ToLower(İ U+0130) = "i", strings.ToLower(K U+212A) = "k",
 # strings.ToUpper(ı U+0131) = "I", strings.ToUpper(ſ U+017F) = "S"; EqualFold / regexp (?i) relate K~k and ſ~s but not İ~i
@@ -105,27 +145,174 @@ def hx(s):
     return b.hex() if b else "-"
 
 
-def glob(p, n):
-    """path.Match for literals, '*' and '?' (no '/' in topics)."""
-    if not p:
-        return not n
-    if p[0] == "*":
-        return glob(p[1:], n) or (bool(n) and n[0] != "/" and glob(p, n[1:]))
-    if not n:
-        return False
-    if p[0] == "?":
-        return n[0] != "/" and glob(p[1:], n[1:])
-    return p[0] == n[0] and glob(p[1:], n[1:])
+# ---- path.Match (Go path/match.go) ported statement by statement, on bytes: True / False, or None for ErrBadPattern;
+# independent of the Lean port (`pathMatch` in Model/SqlProxy.lean); both were diffed against the real path.Match.
+class BadPattern(Exception):
+    pass
+
+
+def decode_rune(s):
+    """utf8.DecodeRuneInString on bytes: (rune, width); ill-formed -> (0xFFFD, 1)"""
+    if not s:
+        return 0xFFFD, 0
+    b0 = s[0]
+    if b0 < 0x80:
+        return b0, 1
+    for n in (2, 3, 4):
+        try:
+            ch = s[:n].decode("utf-8")
+        except UnicodeDecodeError:
+            continue
+        if len(ch) == 1:
+            return ord(ch), n
+    return 0xFFFD, 1
+
+
+def scan_chunk(pattern):
+    star = False
+    while pattern and pattern[0:1] == b"*":
+        pattern = pattern[1:]
+        star = True
+    inrange = False
+    i = 0
+    while i < len(pattern):
+        c = pattern[i:i + 1]
+        if c == b"\\":
+            if i + 1 < len(pattern):
+                i += 1
+        elif c == b"[":
+            inrange = True
+        elif c == b"]":
+            inrange = False
+        elif c == b"*":
+            if not inrange:
+                break
+        i += 1
+    return star, pattern[:i], pattern[i:]
+
+
+def get_esc(chunk):
+    if not chunk or chunk[0:1] in (b"-", b"]"):
+        raise BadPattern()
+    if chunk[0:1] == b"\\":
+        chunk = chunk[1:]
+        if not chunk:
+            raise BadPattern()
+    r, n = decode_rune(chunk)
+    bad = r == 0xFFFD and n == 1
+    nchunk = chunk[n:]
+    if not nchunk:
+        bad = True
+    if bad:
+        raise BadPattern()
+    return r, nchunk
+
+
+def match_chunk(chunk, s):
+    """-> rest (bytes) or None when the chunk does not match; raises BadPattern"""
+    failed = False
+    while chunk:
+        if not failed and not s:
+            failed = True
+        c = chunk[0:1]
+        if c == b"[":
+            r = 0
+            if not failed:
+                r, n = decode_rune(s)
+                s = s[n:]
+            chunk = chunk[1:]
+            negated = False
+            if chunk and chunk[0:1] == b"^":
+                negated = True
+                chunk = chunk[1:]
+            match = False
+            nrange = 0
+            while True:
+                if chunk and chunk[0:1] == b"]" and nrange > 0:
+                    chunk = chunk[1:]
+                    break
+                lo, chunk = get_esc(chunk)
+                hi = lo
+                if chunk[0:1] == b"-":
+                    hi, chunk = get_esc(chunk[1:])
+                if lo <= r <= hi:
+                    match = True
+                nrange += 1
+            if match == negated:
+                failed = True
+        elif c == b"?":
+            if not failed:
+                if s[0:1] == b"/":
+                    failed = True
+                _, n = decode_rune(s)
+                s = s[n:]
+            chunk = chunk[1:]
+        else:
+            if c == b"\\":
+                chunk = chunk[1:]
+                if not chunk:
+                    raise BadPattern()
+            if not failed:
+                if chunk[0] != s[0]:
+                    failed = True
+                s = s[1:]
+            chunk = chunk[1:]
+    return None if failed else s
+
+
+def path_match(pattern, name):
+    try:
+        while pattern:
+            star, chunk, pattern = scan_chunk(pattern)
+            if star and not chunk:
+                return b"/" not in name
+            t = match_chunk(chunk, name)
+            if t is not None and (not t or pattern):
+                name = t
+                continue
+            advanced = False
+            if star:
+                i = 0
+                while i < len(name) and name[i:i + 1] != b"/":
+                    t = match_chunk(chunk, name[i + 1:])
+                    if t is not None:
+                        if not pattern and t:
+                            i += 1
+                            continue
+                        name = t
+                        advanced = True
+                        break
+                    i += 1
+            if advanced:
+                continue
+            while pattern:
+                _, chunk, pattern = scan_chunk(pattern)
+                match_chunk(chunk, b"")
+            return False
+        return not name
+    except BadPattern:
+        return None
+
+
+WS = " \t\n\r\x0b\x0c\x85\xa0"     # strings.TrimSpace: ASCII white space + U+0085, U+00A0 (… further Unicode spaces: not generated in ACLs)
 
 
 def match_patterns(pats, topic):
+    """acl.go matchPatterns as specified: TrimSpace, blank skipped, `*`, path.Match without error, or the name itself."""
+    tb = topic.encode() if isinstance(topic, str) else topic
     for p in pats:
-        p = p.strip(" \t\n\r\x0b\x0c")
+        p = p.strip(WS)
         if not p:
             continue
-        if p == "*" or glob(p, topic) or p == topic:
+        pb = p.encode()
+        if p == "*" or path_match(pb, tb) is True or pb == tb:
             return True
     return False
+
+
+def enc_list(ps):
+    """`-` = empty list, `~` = empty element (so that [""] and [] differ on the wire)"""
+    return ",".join((hx(p) if p else "~") for p in ps) or "-"
 
 
 def allows(acl, topic):
@@ -250,7 +437,7 @@ def tail_query(rng, acl):
 def gen_conn(rng, nq):
     acl = rng.choice(ACLS)
     ttl, mx = rng.choice([(300, 8), (300, 2), (0, 0), (300, 1), (60, 100)])
-    lines = ["conn %d %d %s %s" % (ttl, mx, ",".join(hx(p) for p in acl[0]) or "-", ",".join(hx(p) for p in acl[1]) or "-")]
+    lines = ["conn %d %d %s %s" % (ttl, mx, enc_list(acl[0]), enc_list(acl[1]))]
     texts = []
     for _ in range(nq):
         k = rng.below(10)
@@ -437,7 +624,7 @@ def corpus():
 
 
 def conn_of(acl, qs, ttl=0, mx=0):
-    head = "conn %d %d %s %s" % (ttl, mx, ",".join(hx(p) for p in acl[0]) or "-", ",".join(hx(p) for p in acl[1]) or "-")
+    head = "conn %d %d %s %s" % (ttl, mx, enc_list(acl[0]), enc_list(acl[1]))
     return (acl, [head] + ["q " + hx(q) for q in qs], qs)
 
 
@@ -462,6 +649,87 @@ def fold_corpus():
             conn_of((["?", "b?"], []), qs), conn_of((["orders", "t"], ["secret"]), st, 300, 100)]
 
 
+def class_corpus():
+    """Systematic: every ACL whose patterns are class / escape / malformed globs, every statement kind on the topics the
+    classes range over (and on one topic outside)."""
+    out = []
+    for acl in CLASS_ACLS:
+        qs = []
+        for t in ["audit-7", "audit-3", "audit-x", "audit", "secret", "orders", "orders-secret", "b1", "t", "a", "café", "cafÉ", "kelvin",
+                  "\u212aelvin"]:
+            qs += ["select * from %s limit 2" % t, "show partitions from %s" % t, "describe %s" % t, "explain select * from %s" % t,
+                   "select * from orders o join %s p on o._key = p._key within 10m last 1h" % t]
+        qs += ["show topics", "select * from information_schema.tables", "SET a = 1"]
+        out.append(conn_of(acl, qs))
+    return out
+
+
+def blank_corpus():
+    """Systematic: allow / deny lists holding only blank entries, through the real constructor proxy.New."""
+    out = []
+    for i, acl in enumerate(BLANK_ACLS):
+        qs = []
+        for t in ["orders", "secret", "t", "audit-7"]:
+            qs += ["select * from %s limit 2" % t, "show partitions from %s" % t, "describe %s" % t, "explain select * from %s" % t]
+        qs += ["show topics", "select * from information_schema.tables", "select * from orders pg_catalog.pg_tables", "SET a = 1",
+               "select * from orders o join secret p on o._key = p._key within 10m last 1h", "show topics"]
+        out.append(conn_of(acl, qs, *((300, 8) if i % 2 else (0, 0))))
+    return out
+
+
+def rand_pattern(rng, base=None):
+    """An ACL pattern derived from a topic name: characters replaced by classes (ranges, negation, escapes), escapes, `?`, `*`;
+    sometimes broken (unterminated class, trailing backslash, empty class, reversed range)."""
+    t = base or rng.choice(TOPICS)
+    out = []
+    for ch in t:
+        k = rng.below(30)
+        lo, hi = chr(max(33, ord(ch) - rng.below(3))), chr(ord(ch) + rng.below(3))
+        if k == 0:
+            out.append("[%s-%s]" % (lo, hi) if lo not in "-]\\^[" and hi not in "-]\\^[" else "[\\%s-\\%s]" % (lo, hi))
+        elif k == 1:
+            out.append("[^%s]" % rng.choice(["0-9", "a-z", "x", "\\" + ch, ch + "q"]))
+        elif k == 2:
+            out.append("\\" + ch)
+        elif k == 3:
+            out.append("[%s]" % rng.choice([ch, "q" + ch, ch + "-" + ch, "\\" + ch, "]" + ch, "0-9a-z", "a-zé-ë", "^" + ch]))
+        elif k == 4:
+            out.append(rng.choice(["?", "*", "", "[*]", "[?]"]))
+        elif k == 5 and rng.chance(1, 3):
+            out.append(rng.choice(["[", "[]", "[^]", "[%s-]" % ch, "[-%s]" % ch, "[%s" % ch, "[z-a]", "\\"]))
+        else:
+            out.append(ch)
+    p = "".join(out)
+    if rng.chance(1, 12):
+        p += rng.choice(["\\", "[", "*[", "*\\", "]", "-", "[a-"])
+    if rng.chance(1, 10):
+        p = rng.choice([" ", "\t", "  "]) + p + rng.choice(["", " ", "\n"])
+    return p
+
+
+def acl_probes(rng, n):
+    """`acl` lines: the real acl.go against the model and against the specification (python), one topic at a time."""
+    out = []
+    for _ in range(n):
+        t = rng.choice(TOPICS)
+        mk = lambda: [rng.choice(["", " ", "*", rng.choice(TOPICS)]) if rng.chance(1, 6) else rand_pattern(rng, t if rng.chance(2, 3) else None)
+                      for _ in range(rng.below(3))]
+        allow, deny = mk(), mk()
+        if rng.chance(1, 8):
+            t = rng.choice(allow + deny + ["*"])
+        out.append((allow, deny, t))
+    for acl in CLASS_ACLS + BLANK_ACLS:
+        for t in TOPICS + ["*"]:
+            out.append((acl[0], acl[1], t))
+    return out
+
+
+def acl_expect(allow, deny, t):
+    b = lambda v: "1" if v else "0"
+    return "acl ma=%s md=%s allows=%s show=%s" % (b(match_patterns(allow, t)), b(match_patterns(deny, t)), b(allows((allow, deny), t)),
+                                                  b(allow_show((allow, deny))))
+
+
 def tail_corpus(quick):
     """Systematic: every statement kind x every terminator tail, on a topic whose name + `;` is allowed and whose name is not."""
     out = []
@@ -479,7 +747,7 @@ def run(ck):
         return
     binary = bins["h"]
     quick = ck.quick()
-    ck.cov["rule"] = ("connections with an ACL (allow/deny lists with literals, *, ?, padded and empty patterns; or none) and a "
+    ck.cov["rule"] = ("connections with an ACL (allow/deny lists with literals, *, ?, [classes] with ranges / negation / escapes, backslash escapes, malformed patterns, padded and empty patterns, lists holding only blank entries — all through proxy.New; or none) and a "
                       "decision cache (off, size 1/2/8/100) receiving 25 query texts: statements over a 10-topic universe "
                       "(select, joins, explain, show, describe), texts longer than 512 bytes whose join / catalog name / topic "
                       "sits after the cut, catalog and SET texts, exact and normalised repeats, texts sharing their first 512 "
@@ -488,7 +756,7 @@ def run(ck):
                       "kind x 20 terminator tails (`;`, `;;`, `; ;`, white space, comments, Unicode spaces) on a topic whose name + `;` "
                       "is allowed and whose name is not; non-trivial = forwarded and the upstream read at least one topic or "
                       "listed topics")
-    conns = corpus() + fold_corpus() + tail_corpus(quick)
+    conns = corpus() + fold_corpus() + tail_corpus(quick) + class_corpus() + blank_corpus()
     for _ in range(40 if quick else 400):
         conns.append(gen_conn(ck.rng.fork(), 25 if quick else 40))
     lines = ["topics " + ",".join(hx(t) for t in TOPICS)]
@@ -496,10 +764,22 @@ def run(ck):
     for acl, ls, texts in conns:
         index.append((len(lines), acl, texts))
         lines += ls
+    probes = acl_probes(ck.rng.fork(), 400 if quick else 4000)
+    probe_start = len(lines)
+    lines += ["acl %s %s %s" % (enc_list(a), enc_list(d), hx(t)) for a, d, t in probes]
     impl, fn, crash = run_case(ck, binary, lines, "all")
     if crash:
         ck.broke("implementation harness did not answer every line", crash)
         return
+    # acl.go alone against its specification (python port of path.Match + the rules of matchPatterns / Allows / AllowShowTopics)
+    for j, (a, d, t) in enumerate(probes):
+        ck.count("acl_probes")
+        want = acl_expect(a, d, t)
+        if impl[probe_start + j] != want:
+            ck.cov["disagreements_checked"] += 1
+            ck.broke("acl.go does not decide as specified (matchPatterns = TrimSpace, skip blank, `*`, path.Match, or the name itself)",
+                     "allow=%r deny=%r topic=%r\nimpl    : %s\nexpected: %s" % (a, d, t, impl[probe_start + j], want))
+            break
     # monitors
     for start, acl, texts in index:
         for j, q in enumerate(texts):
@@ -532,9 +812,9 @@ def run(ck):
         ck.broke("model driver did not answer every line", "%d/%d" % (len(model), len(kept)))
         return
     for i, mo in zip(kept, model):
-        io = " ".join(impl[i].split()[:2])
+        io = impl[i] if impl[i].startswith("acl ") else " ".join(impl[i].split()[:2])
         ck.cov["traces_validated_against_impl"] += 1
-        if io != " ".join(mo.split()[:2]):
+        if io != (mo if mo.startswith("acl ") else " ".join(mo.split()[:2])):
             ck.cov["disagreements_checked"] += 1
             ck.broke("correspondence model/implementation (proxy.handleConn)",
                      "line %r\nimpl : %s\nmodel: %s" % (lines[i][:300], impl[i][:300], mo[:300]))
